@@ -907,6 +907,7 @@ class Generator(object):
         fn = self.fn
         spec = Spec(self, fn.ns, fn.cfg, 'verify', '')
         self.contract.spec(spec)
+        self.last_spec = spec
         for t in spec.user_terms:
             self.add_term(t)
         self.stable_quants = self.compute_stable_quants(spec)
